@@ -2346,17 +2346,19 @@ class Transport(threading.Thread, ClosingContextManager):
             if self.active:
                 self.active = False
                 self.packetizer.close()
-                if self.completion_event is not None:
-                    self.completion_event.set()
-                if self.auth_handler is not None:
-                    self.auth_handler.abort()
-                for event in self.channel_events.values():
-                    event.set()
-                try:
-                    self.lock.acquire()
-                    self.server_accept_cv.notify()
-                finally:
-                    self.lock.release()
+            # Wake everybody waiting on this session -- also when close()
+            # cleared ``active`` before we got here.
+            if self.completion_event is not None:
+                self.completion_event.set()
+            if self.auth_handler is not None:
+                self.auth_handler.abort()
+            for event in self.channel_events.values():
+                event.set()
+            try:
+                self.lock.acquire()
+                self.server_accept_cv.notify_all()
+            finally:
+                self.lock.release()
             self.sock.close()
         except:
             # Don't raise spurious 'NoneType has no attribute X' errors when we
